@@ -31,6 +31,23 @@ KX(x) ==
            k |-> KDF(B32(V.x) \o B32(V.y) \o za \o zb, x.klen),
            s1 |-> Digest(<<2>> \o B32(V.y) \o inner), s2 |-> Digest(<<3>> \o B32(V.y) \o inner)]
 
+\* one party's side of the exchange, the peer's static and ephemeral values given as POINTS (their scalars need not be
+\* known: points with a coordinate in [n, p), with a zero coordinate, with a 16-byte x whose top bit is set ...)
+KXHalf(x) ==
+  LET P == PMul(C, x.d, G(C)) R == PMul(C, x.r, G(C))
+      PP == Pt(x.ppx, x.ppy) PR == Pt(x.prx, x.pry)
+      t == BAddMod(x.d, BMulMod(XHat(R.x), x.r, C.n), C.n)
+      WW == PMul(C, t, PAdd(C, PP, PMul(C, XHat(PR.x), PR)))
+      init == x.role = "a"
+      za == IF init THEN ZA(IdBytes(x.ida), P.x, P.y) ELSE ZA(IdBytes(x.ida), PP.x, PP.y)
+      zb == IF init THEN ZA(IdBytes(x.idb), PP.x, PP.y) ELSE ZA(IdBytes(x.idb), P.x, P.y)
+      RA == IF init THEN R ELSE PR
+      RB == IF init THEN PR ELSE R
+      inner == Digest(B32(WW.x) \o za \o zb \o B32(RA.x) \o B32(RA.y) \o B32(RB.x) \o B32(RB.y))
+  IN [peer_ok |-> OnCurve(C, x.ppx, x.ppy) /\ OnCurve(C, x.prx, x.pry), fail |-> WW.inf,
+      k |-> KDF(B32(WW.x) \o B32(WW.y) \o za \o zb, x.klen),
+      s1 |-> Digest(<<2>> \o B32(WW.y) \o inner), s2 |-> Digest(<<3>> \o B32(WW.y) \o inner)]
+
 Eval(x) ==
   CASE x.kind = "findkey" -> \* public point of a small private key, to find coordinates with leading zero bytes
          LET P == PMul(C, BFromInt(x.d), G(C)) IN [x |-> P.x, y |-> P.y, xlen |-> Len(BToBytes(P.x, 0)), ylen |-> Len(BToBytes(P.y, 0))]
@@ -65,6 +82,7 @@ Eval(x) ==
     [] x.kind = "decspec" -> \* the standard's verdict on given components
          LET r == Dec(x.d, BFromBytes(x.x1), BFromBytes(x.y1), x.c2, x.c3) IN [ok |-> r.ok, m |-> IF r.ok THEN r.m ELSE <<>>]
     [] x.kind \in {"kx", "findkx"} -> KX(x)
+    [] x.kind = "kxhalf" -> KXHalf(x)
 Init == c \in 1..Len(CaseSeq) /\ done = FALSE
 Next == /\ ~done /\ done' = TRUE /\ c' = c
         /\ PrintT(<<"CASE", ToJson([case |-> CaseSeq[c], expect |-> Eval(CaseSeq[c])])>>)
